@@ -935,17 +935,51 @@ func childLeaf(args []string) {
 		lmu.Unlock()
 	}
 	_ = os.MkdirAll(dir, 0o755)
+	if race {
+		// First use of the process-wide PipelineManager from concurrent goroutines, as the task-pool workers of a
+		// fresh storage node (leafTaskProcessor.processDataSearch) and concurrent exec() callers on a broker do.
+		start := make(chan struct{})
+		var wg sync.WaitGroup
+		for k := 0; k < 16; k++ {
+			wg.Add(1)
+			go func() {
+				defer wg.Done()
+				<-start
+				_ = query.GetPipelineManager().GetPipeline("c19-first-use")
+			}()
+		}
+		close(start)
+		wg.Wait()
+		a.count("pipeline_manager_concurrent_first_use", 1)
+	}
 	var env *leafEnv
 	for attempt := 0; attempt < 3; attempt++ {
 		env, err = newLeafEnv(fmt.Sprintf("%s/e%d", dir, attempt))
 		if err == nil {
-			// probe: healthy requests over the small shards must be answered with data before any case runs
-			for _, q := range []string{"plain", "cond", "groupby"} {
-				probe := &leafCase{ID: 5999, Kind: "data", Query: q, Shards: []int{0, 1, 3}, Fault: map[int]string{}, Release: []int{0, 1, 3}}
-				out := env.run(probe)
-				if len(out.Responses) != 1 || out.Responses[0].ErrMsg != "" || out.Responses[0].Payload == 0 {
-					err = fmt.Errorf("probe request (%s) not answered with data: %+v watchdog=%q", q, out.Responses, out.Watchdog)
-					break
+			// probe: healthy requests over the small shards must be answered with data before any case runs.  They are the
+			// first requests of the process and are sent as one concurrent burst, like the first queries reaching a fresh
+			// node: lazily initialised process-wide state of the query path (PipelineManager) is first touched here.
+			qs := []string{"plain", "cond", "groupby", "plain", "cond", "groupby", "plain", "plain"}
+			errs := make([]error, len(qs))
+			start := make(chan struct{})
+			var wg sync.WaitGroup
+			for k, q := range qs {
+				wg.Add(1)
+				go func(k int, q string) {
+					defer wg.Done()
+					probe := &leafCase{ID: 5990 + k, Kind: "data", Query: q, Shards: []int{0, 1, 3}, Fault: map[int]string{}, Release: []int{0, 1, 3}, Explain: true}
+					<-start
+					out := env.run(probe)
+					if len(out.Responses) != 1 || out.Responses[0].ErrMsg != "" || out.Responses[0].Payload == 0 {
+						errs[k] = fmt.Errorf("probe request (%s) not answered with data: %+v watchdog=%q", q, out.Responses, out.Watchdog)
+					}
+				}(k, q)
+			}
+			close(start)
+			wg.Wait()
+			for _, e := range errs {
+				if e != nil {
+					err = e
 				}
 			}
 		}
